@@ -18,6 +18,10 @@ element-wise transformer of `Core/Nonlin.lean`, run on dual numbers, returns its
 input and in its own parameters; and the whole executed rational-quadratic PROGRAM (softmax, cumsum, search, gather included)
 run on the dual input `(x, 1)` returns `(value, exp(log-det))`.
 What is trusted: PyTorch autograd for compositions of built-in ops (chain rule through conditioners, sums over features).
+
+**Not covered by any theorem** (external audit; carried by the autograd-vs-dual-number correspondence and the finite-difference
+oracle): cubic splines, the linear family, normalisation layers, whole flows / `log_prob`, "every trainable parameter receives a
+gradient", finiteness of gradients, second backward.  Coupling layers: bounded RQ elements only (`Properties/C16D.lean`).
 -/
 open DualSound NF
 
